@@ -3,6 +3,14 @@
 #include <algorithm>
 #include <map>
 
+#include <signal.h>
+#include <sys/wait.h>
+#include <unistd.h>
+
+#include <foonathan/memory/memory_arena.hpp>
+#include <foonathan/memory/static_allocator.hpp>
+#include <foonathan/memory/virtual_memory.hpp>
+
 #include "hist.hpp"
 
 #ifdef VF_ASAN
@@ -97,6 +105,7 @@ namespace
         O_NOREPORT = 1u << 9,  // C16 (no false invalid-pointer reports)
         O_FILL     = 1u << 10, // C17 fill patterns
         O_CAPS     = 1u << 11, // C18
+        O_BADREL   = 1u << 12, // C16: covered invalid releases are reported (forked child)
     };
 
     // op kinds (index = kind id). Order is part of the replay format only through names.
@@ -125,6 +134,7 @@ namespace
         K_probe,
         K_arm_fault,
         K_replay_unwind,
+        K_bad_release,
         K__count
     };
     const char* kind_names[K__count] = {"alloc_node", "alloc_array", "try_alloc_node",
@@ -132,7 +142,7 @@ namespace
                                         "unwind", "next_iteration", "shrink_to_fit", "reserve",
                                         "move_ctor", "move_assign", "swap", "zombie", "sweep",
                                         "cycle", "drain", "fill_block", "exhaust", "probe",
-                                        "arm_fault", "replay_unwind"};
+                                        "arm_fault", "replay_unwind", "bad_release"};
 
     struct Mode
     {
@@ -150,49 +160,50 @@ namespace
     // weights:                an  aa tn ta de ov mk uw ni sh rs mc ma sw zo sp cy dr fb ex pr af ru
     const Mode modes[] = {
         {"C01", O_CORE | O_NOREPORT | O_FILL, ALL_FAM,
-         {30, 12, 6, 4, 30, 1, 4, 4, 4, 2, 2, 2, 2, 1, 2, 3, 1, 1, 2, 1, 0, 0, 1}, 200, false,
+         {30, 12, 6, 4, 30, 1, 4, 4, 4, 2, 2, 2, 2, 1, 2, 3, 1, 1, 2, 1, 0, 0, 1, 0}, 200, false,
          "history with >=8 successful allocations, >=1 release between two allocations, and one of: "
          "upstream growth inside the history / array and node live together / >=2 buckets of a "
          "collection used / a move with live allocations"},
         {"C02", O_CORE | O_ALIGN, ALL_FAM,
-         {30, 20, 6, 6, 20, 0, 3, 3, 3, 1, 2, 1, 1, 0, 0, 3, 0, 1, 4, 0, 0, 0, 1}, 200, false,
+         {30, 20, 6, 6, 20, 0, 3, 3, 3, 1, 2, 1, 1, 0, 0, 3, 0, 1, 4, 0, 0, 0, 1, 0}, 200, false,
          "case with a successful request that has alignment>=8, or an array with count>=2, or sits in "
          "a position class (first in a fresh block / fills block / after growth / after unwind)"},
         {"C03", O_CORE | O_FAIL, ALL_FAM,
-         {20, 8, 8, 6, 16, 14, 2, 2, 3, 1, 1, 1, 1, 0, 0, 2, 0, 1, 3, 6, 0, 6, 0}, 160, true,
+         {20, 8, 8, 6, 16, 14, 2, 2, 3, 1, 1, 1, 1, 0, 0, 2, 0, 1, 3, 6, 0, 6, 0, 0}, 160, true,
          ">=1 failed request (oversize / exhaustion / injected upstream fault) followed by >=1 "
          "successful allocation and >=1 release of memory allocated before the failure"},
         {"C04", O_CORE | O_CONSERVE, FB(F_POOL) | FB(F_COLL),
-         {30, 16, 4, 4, 30, 0, 0, 0, 0, 0, 3, 1, 1, 0, 0, 2, 8, 6, 0, 0, 0, 0, 0}, 200, false,
+         {30, 16, 4, 4, 30, 0, 0, 0, 0, 0, 3, 1, 1, 0, 0, 2, 8, 6, 0, 0, 0, 0, 0, 0}, 200, false,
          "segment with >=1 array whose byte count is not a multiple of the node size, or >=6 releases "
          "in an order different from allocation order and its reverse, or a cycle with k>=3"},
         {"C05", O_CORE | O_UPSTREAM, FB(F_POOL) | FB(F_COLL) | FB(F_STACK) | FB(F_ITER),
-         {30, 10, 4, 2, 20, 0, 6, 8, 3, 6, 2, 3, 3, 2, 3, 1, 0, 2, 4, 2, 0, 4, 0}, 200, true,
+         {30, 10, 4, 2, 20, 0, 6, 8, 3, 6, 2, 3, 3, 2, 3, 1, 0, 2, 4, 2, 0, 4, 0, 0}, 200, true,
          ">=3 upstream blocks acquired and one of: a shrink_to_fit with cached blocks / a move or swap "
          "with >=2 blocks / an injected failure at k>=2 / destruction with live allocations"},
         {"C06", O_CORE | O_UNWIND, FB(F_STACK),
-         {40, 10, 6, 2, 4, 0, 14, 10, 0, 4, 0, 1, 1, 0, 0, 3, 0, 0, 4, 0, 0, 0, 8}, 200, false,
+         {40, 10, 6, 2, 4, 0, 14, 10, 0, 4, 0, 1, 1, 0, 0, 3, 0, 0, 4, 0, 0, 0, 8, 0}, 200, false,
          "an unwind that drops >=1 block with >=2 nested markers alive and a replay of >=3 requests"},
         {"C07", O_CORE | O_ITER, FB(F_ITER),
-         {40, 10, 10, 4, 4, 0, 0, 0, 16, 0, 0, 2, 2, 0, 1, 4, 0, 0, 4, 2, 3, 0, 0}, 200, false,
+         {40, 10, 10, 4, 4, 0, 0, 0, 16, 0, 0, 2, 2, 0, 1, 4, 0, 0, 4, 2, 3, 0, 0, 0}, 200, false,
          ">=N+1 next_iteration calls with allocations of >=2 iterations alive at once (N>=2), or a "
          "block size with size mod N != 0"},
         {"C12", O_CORE | O_UPSTREAM | O_MOVE, FB(F_POOL) | FB(F_COLL) | FB(F_STACK) | FB(F_ITER),
-         {30, 10, 4, 2, 20, 0, 3, 3, 3, 2, 2, 8, 8, 5, 6, 3, 0, 1, 2, 0, 0, 0, 0}, 160, false,
+         {30, 10, 4, 2, 20, 0, 3, 3, 3, 2, 2, 8, 8, 5, 6, 3, 0, 1, 2, 3, 0, 0, 0, 0}, 160, false,
          "a move/move-assignment/swap with >=3 live allocations (>=2 blocks for growing subjects), "
          "followed by >=2 more operations on the new owner, moved-from object destroyed"},
         {"C15", O_CORE | O_LEAK, FB(F_POOL) | FB(F_COLL) | FB(F_STACK),
-         {30, 16, 0, 0, 24, 0, 2, 2, 0, 1, 1, 5, 5, 2, 3, 1, 0, 1, 0, 0, 0, 0, 0}, 120, false,
+         {30, 16, 0, 0, 24, 0, 2, 2, 0, 1, 1, 5, 5, 2, 3, 1, 0, 1, 0, 0, 0, 0, 0, 0}, 120, false,
          "net != 0 at destruction after >=1 move, or >=1 array with element size != node size"},
-        {"C16", O_CORE | O_NOREPORT, FB(F_POOL) | FB(F_COLL) | FB(F_STACK),
-         {30, 10, 4, 2, 40, 0, 4, 6, 0, 2, 1, 1, 1, 0, 0, 2, 0, 4, 0, 0, 0, 0, 0}, 200, false,
-         "valid history with >=6 releases in non-monotonic address order (no report may fire)"},
+        {"C16", O_CORE | O_NOREPORT | O_BADREL, FB(F_POOL) | FB(F_COLL) | FB(F_STACK),
+         {30, 10, 4, 2, 40, 0, 4, 6, 0, 2, 1, 1, 1, 0, 0, 2, 0, 4, 0, 0, 0, 0, 0, 10}, 200, false,
+         "valid prefix with >=6 releases in non-monotonic address order (no report may fire) followed by a "
+         "covered invalid release executed in a forked child, or such a valid history without a bad call"},
         {"C17", O_CORE | O_FILL, ALL_FAM,
-         {30, 12, 6, 4, 30, 0, 3, 3, 3, 1, 1, 1, 1, 0, 0, 3, 0, 2, 2, 0, 0, 0, 0}, 160, false,
+         {30, 12, 6, 4, 30, 0, 3, 3, 3, 1, 1, 1, 1, 0, 0, 3, 0, 2, 2, 0, 0, 0, 0, 0}, 160, false,
          "fill-enabled case with >=4 fresh allocations checked for the new-memory pattern and >=2 "
          "releases to a pool checked for the freed-memory pattern"},
         {"C18", O_CORE | O_CAPS, FB(F_POOL) | FB(F_COLL) | FB(F_STACK) | FB(F_ITER) | FB(F_STATIC),
-         {30, 14, 6, 4, 24, 6, 3, 3, 3, 1, 4, 1, 1, 0, 0, 1, 0, 1, 3, 1, 10, 0, 0}, 160, false,
+         {30, 14, 6, 4, 24, 6, 3, 3, 3, 1, 4, 1, 1, 0, 0, 1, 0, 1, 3, 1, 10, 0, 0, 0}, 160, false,
          "history with >=1 array and >=1 upstream growth whose counter deltas were all checked, or a "
          ">=1 successful capacity probe"},
     };
@@ -429,6 +440,10 @@ namespace
                     }
                 ++n_fill_new;
             }
+            if (!freed.empty())
+                for (size_t i = freed.size(); i-- > 0;)
+                    if (freed[i].p < p + n && p < freed[i].p + freed[i].req.bytes())
+                        freed.erase(freed.begin() + long(i));
             Live l;
             l.id        = next_id++;
             l.p         = p;
@@ -985,6 +1000,8 @@ namespace
                         ++n_fill_free;
                     }
                 }
+                if (has(O_BADREL) && !l.req.array)
+                    freed.push_back({l.p, l.req});
                 forget(idx);
             }
             else
@@ -1798,6 +1815,227 @@ namespace
             ci.classes.insert("fault-armed");
         }
 
+        //--- C16: covered invalid releases, each in a forked child ---//
+        struct Freed
+        {
+            char* p;
+            Req   req;
+        };
+        std::vector<Freed> freed; // pool nodes released and not handed out again
+        unsigned n_bad_calls = 0, n_bad_na = 0;
+        static Runner*& child_runner()
+        {
+            static Runner* r = nullptr;
+            return r;
+        }
+        std::vector<size_t> child_caps;
+        static void child_invalid_handler(const fm::allocator_info&, const void*)
+        {
+            // reported: was the allocator's observable state still untouched?
+            Runner* r = child_runner();
+            if (!r || r->child_caps.empty())
+                _exit(42);
+            std::vector<size_t> now;
+            r->s->caps(now, r->child_for_size);
+            _exit(now == r->child_caps ? 42 : 43);
+        }
+        size_t child_for_size = 0;
+
+        // runs `bad` in a child; -> true if the outcome is acceptable
+        template <class F>
+        void in_child(const char* cls, size_t for_size, F bad)
+        {
+            child_for_size = for_size;
+            s->caps(child_caps, for_size);
+            child_runner() = this;
+            std::fflush(nullptr);
+            pid_t pid = fork();
+            if (pid == 0)
+            {
+                alarm(3); // a bad call takes microseconds; the inherited handler exits with 87
+                signal(SIGABRT, SIG_DFL); // assertion / unreachable aborts must stay SIGABRT
+                fm::set_invalid_pointer_handler(child_invalid_handler);
+                int rc = 44;
+                rc     = bad();
+                _exit(rc);
+            }
+            int status = 0;
+            if (pid < 0 || waitpid(pid, &status, 0) != pid)
+            {
+                ++ci.noops;
+                return;
+            }
+            child_runner() = nullptr;
+            if (WIFEXITED(status) && WEXITSTATUS(status) == 45)
+            {
+                ++n_bad_na;
+                return; // the chosen bad call was not applicable after all
+            }
+            ++n_bad_calls;
+            ci.classes.insert(std::string("bad:") + cls);
+            if (WIFEXITED(status) && WEXITSTATUS(status) == 42)
+                return; // reported before any state change
+            if (WIFSIGNALED(status) && WTERMSIG(status) == SIGABRT)
+                return; // "or at least stops the program"
+            std::string what;
+            if (WIFEXITED(status) && WEXITSTATUS(status) == 43)
+                what = "reported, but the allocator's capacity figures had already changed";
+            else if (WIFEXITED(status) && WEXITSTATUS(status) == 44)
+                what = "not reported: the call returned normally";
+            else if (WIFEXITED(status) && WEXITSTATUS(status) == 87)
+                what = "neither reported nor stopped: the call did not return within 3 s (hang)";
+            else if (WIFEXITED(status))
+                what = "child exited with status " + std::to_string(WEXITSTATUS(status))
+                       + " (memory error before any report)";
+            else
+                what = "child killed by signal " + std::to_string(WTERMSIG(status))
+                       + " before any report";
+            fail(std::string("bad-release:") + cls, std::string("invalid release of class '") + cls
+                                                        + "': " + what);
+        }
+
+        void op_bad_release(const Op& op)
+        {
+            if (!has(O_BADREL) || !ptrchk_on)
+            {
+                ++ci.noops;
+                return;
+            }
+            static char outside_buffer[256];
+            unsigned    cls = op.a % 8;
+            bool        small = s->name.find("small") != std::string::npos;
+            bool        dbl_on = FOONATHAN_MEMORY_DEBUG_DOUBLE_DEALLOC_CHECK;
+            if ((s->fam == F_POOL || s->fam == F_COLL) && small && cls < 3)
+            {
+                // pointer outside every chunk / inside a chunk but off the node boundary
+                Req r;
+                r.array = false;
+                r.iface = MEMBER;
+                r.size  = s->fam == F_POOL ? s->nominal_size() : pick_size(op.b);
+                r.align = 1;
+                size_t ns = s->node_size_of(r.size);
+                if (cls == 0)
+                {
+                    char* p = outside_buffer + 64;
+                    in_child("small-outside", r.size, [&] { s->dealloc(p, r); return 44; });
+                }
+                else if (cls == 1)
+                {
+                    // a live node of the same bucket, off by a non-multiple of the node size
+                    for (auto& l : lives)
+                        if (!l.req.array && s->node_size_of(l.req.size) == ns && ns >= 2)
+                        {
+                            char* p = l.p + 1 + op.c % (ns - 1);
+                            Req   rr = r;
+                            rr.size  = l.req.size;
+                            in_child("small-off-boundary", rr.size, [&] { s->dealloc(p, rr); return 44; });
+                            return;
+                        }
+                    ++ci.noops;
+                }
+                else
+                {
+                    // memory the allocator owns but that is not part of any chunk's node area is
+                    // hard to name without knowing the layout: use the upstream block header
+                    auto& out = Slab::get().outstanding();
+                    for (auto& b : out)
+                        if (b.owner < static_owner_offset)
+                        {
+                            char* p = b.addr + 1; // inside the arena's block header
+                            in_child("small-block-header", r.size, [&] { s->dealloc(p, r); return 44; });
+                            return;
+                        }
+                    ++ci.noops;
+                }
+                return;
+            }
+            if ((s->fam == F_POOL || s->fam == F_COLL) && dbl_on && !freed.empty())
+            {
+                // double free: first / last by address, most recently freed, middle
+                size_t idx = 0;
+                switch (cls % 4)
+                {
+                case 0:
+                    idx = freed.size() - 1;
+                    break; // most recently freed
+                case 1:
+                    for (size_t i = 0; i < freed.size(); ++i)
+                        if (freed[i].p < freed[idx].p)
+                            idx = i;
+                    break;
+                case 2:
+                    for (size_t i = 0; i < freed.size(); ++i)
+                        if (freed[i].p > freed[idx].p)
+                            idx = i;
+                    break;
+                default:
+                    idx = op.b % freed.size();
+                }
+                Freed f = freed[idx];
+                if (f.req.iface == COMPOSABLE)
+                    f.req.iface = TRAITS;
+                static const char* names[] = {"double-free-recent", "double-free-lowest",
+                                              "double-free-highest", "double-free-middle"};
+                in_child(names[cls % 4], f.req.size, [&] { s->dealloc(f.p, f.req); return 44; });
+                return;
+            }
+            if (s->fam == F_STACK && s->stale_markers())
+            {
+                size_t i = op.b % s->stale_markers();
+                in_child("stale-marker", 0,
+                         [&]
+                         {
+                             if (!s->stale_above_top(i))
+                                 return 45;
+                             s->unwind_stale(i);
+                             return 44;
+                         });
+                return;
+            }
+            // LIFO-only block sources, driven directly
+            switch (cls % 3)
+            {
+            case 0:
+                in_child("static-block-out-of-order", 0,
+                         [&]
+                         {
+                             static fm::static_allocator_storage<4096> st;
+                             fm::static_block_allocator                a(1024, st);
+                             auto b1 = a.allocate_block();
+                             auto b2 = a.allocate_block();
+                             auto b3 = a.allocate_block();
+                             (void)b3;
+                             (void)b2;
+                             a.deallocate_block(op.b % 2 ? b1 : b2);
+                             return 44;
+                         });
+                break;
+            case 1:
+                in_child("virtual-block-out-of-order", 0,
+                         [&]
+                         {
+                             fm::virtual_block_allocator a(4096, 4);
+                             auto                        b1 = a.allocate_block();
+                             auto                        b2 = a.allocate_block();
+                             auto                        b3 = a.allocate_block();
+                             (void)b3;
+                             a.deallocate_block(op.b % 2 ? b1 : b2);
+                             return 44;
+                         });
+                break;
+            default:
+                in_child("fixed-block-none-outstanding", 0,
+                         [&]
+                         {
+                             fm::fixed_block_allocator<SlabAlloc> a(1024, SlabAlloc(9999));
+                             auto                                 b = a.allocate_block();
+                             a.deallocate_block(b);
+                             a.deallocate_block(b); // nothing is outstanding any more
+                             return 44;
+                         });
+            }
+        }
+
         //--- end of case ---//
         void finish()
         {
@@ -1899,7 +2137,7 @@ namespace
             else if (p == "C15")
                 nt = leak_on && ((model_net != 0 && n_moves > 0) || n_arrays_odd > 0);
             else if (p == "C16")
-                nt = n_release >= 6 && dir_changes >= 2;
+                nt = (n_release >= 6 && dir_changes >= 2) || (n_bad_calls >= 1 && n_release >= 2);
             else if (p == "C17")
                 nt = fill_on && n_fill_new >= 4 && n_fill_free >= 2;
             else if (p == "C18")
@@ -1927,6 +2165,8 @@ namespace
                 ci.classes.insert("destroy-live");
             ci.counters["excluded_by_known_finding"] += ctx.excluded;
             ci.counters["structure_walks"] += n_walks;
+            ci.counters["bad_calls_in_child"] += n_bad_calls;
+            ci.counters["bad_calls_not_applicable"] += n_bad_na;
             ci.counters["alloc_ok"] += n_alloc_ok;
             ci.counters["release"] += n_release;
             ci.counters["fail"] += n_fail;
@@ -2091,6 +2331,9 @@ namespace
                     break;
                 case K_arm_fault:
                     op_arm_fault(op);
+                    break;
+                case K_bad_release:
+                    op_bad_release(op);
                     break;
                 default:
                     ++ci.noops;
